@@ -27,7 +27,7 @@ const flushedSite = "c40.queue.flushAndShutdown.flushed"
 // one shard, two samples in the partial batch, Stop().  The FlushAndShutdown goroutine is held at
 // the pause point between its two critical sections (after tryEnqueueingBatch has put the partial
 // batch on the channel, before q.batch is cleared) until runShard's timer (BatchSendDeadline) has
-// fired.  No send fails; the endpoint receives both samples twice.
+// fired.  No send fails; before fix dca118dfcb the endpoint received both samples twice.
 func reproFlushTimer(id int, seed uint64, outDir string, cf *gallina.CaseFile, meta *gallina.Meta) {
 	in := newInterner()
 	cfg := config.DefaultQueueConfig
@@ -100,11 +100,11 @@ func reproFlushTimer(id int, seed uint64, outDir string, cf *gallina.CaseFile, m
 		gallina.Nat(3), gallina.List([]string{gallina.Pair(gallina.Z(5), in.pairs(labelSlice(lset)))}),
 		gallina.List(fed), gallina.List(reqG), gallina.Bool(settled),
 		gallina.Z(cnt[0]), gallina.Z(cnt[1]), gallina.Z(cnt[2]), gallina.Z(cnt[3]), gallina.Z(cnt[4]), gallina.Z(cnt[5])))
-	shape := "conc"
-	if hooked.Load() && total > 2 {
-		shape = "flush-timer-duplicate"
-		meta.Hit("conc:flush-timer-race-reproduced")
-	} else if !hooked.Load() {
+	shape := "conc" // regression case since fix dca118dfcb: holds_conc demands each sample once
+	if hooked.Load() {
+		meta.Hit("conc:flush-timer-race-window-held")
+	}
+	if !hooked.Load() {
 		meta.Notes = append(meta.Notes, "flush/timer reproducer: pause point "+flushedSite+" not present in this tree; nothing held")
 	}
 	meta.Evaluations++
